@@ -1,29 +1,33 @@
 #!/bin/bash
-# usage: mutsweep.sh <worktree> <mutant-list> <out>   -- systematic single-edit mutants (bin/mutgen): for each mutant that builds and
-# passes the baseline suite, run every rule; prints "<n> <op> <file>:<line> survived <rules|UNFLAGGED>" or "... killed-by-suite / no-build"
+# usage: mutsweep.sh <worktree> <mutant-list> <out> [skip]   -- systematic single-edit mutants (bin/mutgen). For each mutant that
+# builds, every rule is run first; only the mutants no rule reports are then put through the baseline suite (the expensive step),
+# because only those can be misses. Prints "<n> <op> <file>:<line> flagged <rules>" / "killed-by-suite" / "survived UNFLAGGED" / "no-build".
+# [skip]: number of leading mutants of the list already processed.
 export GOFLAGS=-mod=mod GOPROXY=off GOSUMDB=off GOTOOLCHAIN=local; unset GOWORK
-wt=$1; list=$2; out=$3
+wt=$1; list=$2; out=$3; skip=${4:-0}
 cd /verif
 n=0
 while IFS=$'\t' read -r file s e repl op; do
   n=$((n+1))
+  [ $n -le $skip ] && continue
   git -C $wt checkout -q -- . ; git -C $wt clean -fdq
   python3 - "$wt/$file" "$s" "$e" "$repl" <<'PY'
 import sys,ast
-p,s,e,repl=sys.argv[1],int(sys.argv[2]),int(sys.argv[3]),ast.literal_eval(sys.argv[4].replace('\\x','\\x'))
+p,s,e,repl=sys.argv[1],int(sys.argv[2]),int(sys.argv[3]),ast.literal_eval(sys.argv[4])
 b=open(p,'rb').read()
 open(p,'wb').write(b[:s]+repl.encode()+b[e:])
 PY
   line=$(head -c $s $wt/$file | wc -l); line=$((line+1))
   if ! (cd $wt && go build ./... >/dev/null 2>&1); then echo "$n $op $file:$line no-build" >> $out; continue; fi
+  rules=$(bin/frugalvet -repo $wt -prop ALL -replaydir /tmp/scratch/seedreplay 2>&1 | grep -o "\(VIOLATED\|UNDECIDED\) \[[^]]*\]\|ANALYSIS-ERROR" | sed 's/.*\[\(.*\)\]/\1/' | sort -u | tr '\n' ' ')
+  if [ -n "$rules" ]; then echo "$n $op $file:$line flagged $rules" >> $out; continue; fi
   ok=1
   for m in . tests fuzz; do
-    if ! (cd $wt/$m && timeout 240 go test -vet=off -count=1 -failfast ./... >/dev/null 2>&1); then ok=0; break; fi
+    if ! (cd $wt/$m && timeout 300 go test -vet=off -count=1 -failfast ./... >/dev/null 2>&1); then ok=0; break; fi
   done
   if [ $ok = 0 ]; then echo "$n $op $file:$line killed-by-suite" >> $out; continue; fi
-  rules=$(bin/frugalvet -repo $wt -prop ALL -replaydir /tmp/scratch/seedreplay 2>&1 | grep -o "\(VIOLATED\|UNDECIDED\) \[[^]]*\]\|ANALYSIS-ERROR" | sed 's/.*\[\(.*\)\]/\1/' | sort -u | tr '\n' ' ')
   git -C $wt diff > /tmp/scratch/mutsweep/$(basename $out .log)_$n.diff
-  echo "$n $op $file:$line survived ${rules:-UNFLAGGED}" >> $out
+  echo "$n $op $file:$line survived UNFLAGGED" >> $out
 done < $list
 git -C $wt checkout -q -- .
 echo done >> $out
